@@ -138,6 +138,22 @@ func replayWith(h *harness, body, comments []string) (bool, string) {
 					}
 				}
 			}
+		case "prio-msg":
+			// prio-msg base key,key,key, who path kind
+			if len(f) == 6 {
+				base, e1 := hex.DecodeString(f[1])
+				var keys [][]byte
+				for _, ks := range strings.Split(strings.TrimRight(f[2], ","), ",") {
+					kb, e := hex.DecodeString(ks)
+					if e == nil && len(kb) == 32 {
+						keys = append(keys, kb)
+					}
+				}
+				who, _ := strconv.Atoi(f[3])
+				if e1 == nil && len(keys) == 3 {
+					h.prioCase(base, keys, who, f[4], f[5], true)
+				}
+			}
 		case "vrfu":
 			// vrfu sk seed r index role
 			if len(f) == 6 {
